@@ -1007,3 +1007,296 @@ Proof.
     assert (q * get x0 dim * M <= q * (get x0 dim + S) * M) by (apply N.mul_le_mono_r; assumption).
     lia.
 Qed.
+
+(* ------------------------------------------------------------------------------------ *)
+(* permute_dims                                                                           *)
+(* ------------------------------------------------------------------------------------ *)
+
+Lemma existsb_eqb_In p l : existsb (N.eqb p) l = true <-> In p l.
+Proof.
+  rewrite existsb_exists. split.
+  - intros [q [Hin Hq]]. apply N.eqb_eq in Hq. subst q. exact Hin.
+  - intro Hin. exists p. split; [exact Hin|apply N.eqb_refl].
+Qed.
+
+Definition perm_ok (n : N) (perm picked : list N) : Prop :=
+  Forall (fun p => p < n) perm /\ NoDup perm /\ (forall p, In p perm -> ~ In p picked).
+
+Lemma permute_loop_spec x n : forall perm picked,
+  match permute_loop x perm n picked with
+  | Some ds => perm_ok n perm picked /\ ds = map (get x) perm
+  | None => ~ perm_ok n perm picked
+  end.
+Proof.
+  induction perm as [|p r IH]; intro picked; cbn [permute_loop map].
+  - split; [|reflexivity]. split; [constructor|]. split; [constructor|]. intros p [].
+  - destruct (N.leb_spec n p) as [Hnp|Hnp].
+    { intros [A _]. inversion A; subst. lia. }
+    pose proof (existsb_eqb_In p picked) as Hex.
+    destruct (existsb (N.eqb p) picked).
+    { intros [_ [_ A]]. apply (A p); [left; reflexivity|apply Hex; reflexivity]. }
+    assert (Hnin : ~ In p picked) by (intro A; apply Hex in A; discriminate).
+    specialize (IH (p :: picked)).
+    destruct (permute_loop x r n (p :: picked)) as [ds|].
+    + destruct IH as [[I1 [I2 I3]] ->]. split; [|reflexivity].
+      split; [constructor; assumption|]. split.
+      * constructor; [|exact I2]. intro A. apply (I3 p A). left; reflexivity.
+      * intros q [<-|Hq]; [exact Hnin|]. intro A. apply (I3 q Hq). right; exact A.
+    + intros [A1 [A2 A3]]. apply IH. inversion A1; subst. inversion A2 as [|? ? A4 A5]; subst.
+      split; [assumption|]. split; [assumption|].
+      intros q Hq [E|A]; [subst q; contradiction|]. apply (A3 q); [right; exact Hq|exact A].
+Qed.
+
+Lemma prodN_perm l l' : Permutation l l' -> prodN l = prodN l'.
+Proof. induction 1; rewrite ?prodN_cons; lia. Qed.
+
+Lemma prodN_map_seq l : forall n, (length l <= n)%nat ->
+  prodN (map (fun k => nth k l 1) (seq 0 n)) = prodN l.
+Proof.
+  induction l as [|x r IH]; intros n Hn.
+  - clear Hn. rewrite prodN_nil. generalize 0%nat. induction n as [|n IHn]; intro a; cbn [seq map].
+    + apply prodN_nil.
+    + rewrite prodN_cons, IHn. destruct a; cbn [nth]; lia.
+  - cbn [length] in Hn. destruct n as [|n]; [lia|].
+    cbn [seq map nth]. rewrite !prodN_cons. f_equal.
+    rewrite <- seq_shift, map_map. cbn [nth]. apply IH. lia.
+Qed.
+
+Lemma NoDup_map_to_nat l : NoDup l -> NoDup (map N.to_nat l).
+Proof.
+  induction 1 as [|x l Hx Hl IH]; cbn [map]; constructor; [|exact IH].
+  intro A. apply in_map_iff in A. destruct A as [y [Ey Hy]]. apply N2Nat.inj in Ey. subst y. contradiction.
+Qed.
+
+Lemma perm_is_permutation perm :
+  Forall (fun p => p < N.of_nat (length perm)) perm -> NoDup perm ->
+  Permutation (map N.to_nat perm) (seq 0 (length perm)).
+Proof.
+  intros Hlt Hnd. apply NoDup_Permutation_bis.
+  - apply NoDup_map_to_nat; exact Hnd.
+  - rewrite seq_length, map_length. lia.
+  - intros k Hk. apply in_map_iff in Hk. destruct Hk as [p [<- Hp]].
+    rewrite Forall_forall in Hlt. specialize (Hlt p Hp). apply in_seq. lia.
+Qed.
+
+Lemma prodN_permuted x perm : depth x <= N.of_nat (length perm) ->
+  Forall (fun p => p < N.of_nat (length perm)) perm -> NoDup perm ->
+  prodN (map (get x) perm) = prodN (dims x).
+Proof.
+  intros Hd Hlt Hnd.
+  replace (map (get x) perm) with (map (fun k => nth k (dims x) 1) (map N.to_nat perm)).
+  2: { rewrite map_map. apply map_ext. intro p. rewrite get_sget. reflexivity. }
+  rewrite (prodN_perm _ _ (Permutation_map _ (perm_is_permutation perm Hlt Hnd))).
+  apply prodN_map_seq. unfold depth in Hd. lia.
+Qed.
+
+Definition permute_admissible (x : shape) (perm : list N) : Prop :=
+  let n := N.of_nat (length perm) in
+  depth x <= n /\ n <= 8 /\ Forall (fun p => p < n) perm /\ NoDup perm.
+
+Theorem permute_dims_spec x perm : wf x -> Forall u32 perm ->
+  match permute_dims x perm with
+  | Some r => permute_admissible x perm /\ wf r /\ batch r = batch x /\
+              (forall i, get r i = if i <? N.of_nat (length perm)
+                                   then get x (nth (N.to_nat i) perm 0) else 1)
+  | None => ~ permute_admissible x perm
+  end.
+Proof.
+  intros Hx _. unfold permute_dims, permute_admissible.
+  set (n := N.of_nat (length perm)).
+  destruct (N.ltb_spec n (depth x)) as [Hnd|Hnd]; [lia|].
+  pose proof (permute_loop_spec x n perm []) as L.
+  destruct (permute_loop x perm n []) as [ds|].
+  2: { intros [_ [_ [A1 A2]]]. apply L. split; [exact A1|]. split; [exact A2|]. intros p _ []. }
+  destruct L as [[L1 [L2 _]] ->].
+  assert (Hu : Forall u32 (map (get x) perm)).
+  { apply Forall_forall. intros d Hdn. apply in_map_iff in Hdn. destruct Hdn as [p [<- _]].
+    apply get_u32; exact Hx. }
+  pose proof (mk_shape_spec (map (get x) perm) (batch x) Hu (batch_u32 _ Hx)) as M.
+  unfold ctor_admissible in M. rewrite map_length in M.
+  rewrite (prodN_permuted x perm Hnd L1 L2) in M.
+  destruct (mk_shape (map (get x) perm) (batch x)) as [r|].
+  - destruct M as [[M1 _] [Mw [Mb [Mg _]]]].
+    split; [split; [exact Hnd|split; [subst n; lia|split; assumption]]|].
+    split; [exact Mw|]. split; [exact Mb|]. intro i. rewrite Mg. unfold sget.
+    destruct (N.ltb_spec i n) as [Hi|Hi].
+    + rewrite (nth_indep _ 1 (get x 0)) by (rewrite map_length; subst n; lia).
+      apply map_nth.
+    + apply nth_overflow. rewrite map_length. subst n. lia.
+  - intros [_ [A _]]. apply M. split; [subst n; lia|]. split.
+    + apply Forall_forall. intros d Hdn. apply in_map_iff in Hdn. destruct Hdn as [p [<- _]].
+      apply get_pos; exact Hx.
+    + split; [apply (wf_batch _ Hx)|apply (wf_size _ Hx)].
+Qed.
+
+(* ------------------------------------------------------------------------------------ *)
+(* conv2d / pool2d                                                                        *)
+(* ------------------------------------------------------------------------------------ *)
+
+Lemma div_le_self a b : 0 < b -> a / b <= a.
+Proof. intro Hb. apply N.div_le_upper_bound; [lia|nia]. Qed.
+
+Lemma mul_u32_succ_lt64 a b : a < P32 -> b < P32 -> a * b + 1 < P64.
+Proof.
+  intros Ha Hb. assert (a * b <= (P32 - 1) * (P32 - 1)) by (apply N.mul_le_mono; lia).
+  unfold P32, P64 in *. lia.
+Qed.
+
+(* documented output extent of a convolution / pooling axis *)
+Definition conv_out (xi p w d s : N) : N := (xi + 2 * p - ((w - 1) * d + 1)) / s + 1.
+Definition pool_out (xi p w s : N) : N := (xi + 2 * p - w) / s + 1.
+
+Definition conv2d_admissible (x w : shape) (p0 p1 s0 s1 d0 d1 : N) : Prop :=
+  depth x <= 3 /\ depth w <= 4 /\
+  (get w 0 - 1) * d0 + 1 <= get x 0 + 2 * p0 /\
+  (get w 1 - 1) * d1 + 1 <= get x 1 + 2 * p1 /\
+  get x 2 = get w 2 /\ batch_compatible x w /\
+  0 < s0 /\ 0 < s1 /\ 0 < d0 /\ 0 < d1 /\
+  conv_out (get x 0) p0 (get w 0) d0 s0 * conv_out (get x 1) p1 (get w 1) d1 s1 *
+    get w 3 * N.max (batch x) (batch w) < P32.
+
+Theorem conv2d_spec x w p0 p1 s0 s1 d0 d1 : wf x -> wf w ->
+  u32 p0 -> u32 p1 -> u32 s0 -> u32 s1 -> u32 d0 -> u32 d1 ->
+  match conv2d x w p0 p1 s0 s1 d0 d1 with
+  | Some r => conv2d_admissible x w p0 p1 s0 s1 d0 d1 /\ wf r /\
+              batch r = N.max (batch x) (batch w) /\
+              (forall i, get r i =
+                 if i =? 0 then conv_out (get x 0) p0 (get w 0) d0 s0
+                 else if i =? 1 then conv_out (get x 1) p1 (get w 1) d1 s1
+                 else if i =? 2 then get w 3 else 1)
+  | None => ~ conv2d_admissible x w p0 p1 s0 s1 d0 d1
+  end.
+Proof.
+  intros Hx Hw Hp0 Hp1 Hs0 Hs1 Hd0 Hd1. unfold conv2d, conv2d_admissible, conv_out. cbv zeta.
+  pose proof (get_u32 x 0 Hx) as Ux0. pose proof (get_u32 x 1 Hx) as Ux1.
+  pose proof (get_u32 w 0 Hw) as Uw0. pose proof (get_u32 w 1 Hw) as Uw1.
+  pose proof (get_pos w 0 Hw) as Pw0. pose proof (get_pos w 1 Hw) as Pw1.
+  pose proof (get_pos w 3 Hw) as Pw3. pose proof (get_u32 w 3 Hw) as Uw3.
+  pose proof (wf_batch _ Hx) as Hbx. pose proof (wf_batch _ Hw) as Hbw.
+  rewrite (wrap64_small (2 * p0)) by (unfold u32, P32, P64 in *; lia).
+  rewrite (wrap64_small (2 * p1)) by (unfold u32, P32, P64 in *; lia).
+  rewrite (wrap64_small (get x 0 + 2 * p0)) by (unfold u32, P32, P64 in *; lia).
+  rewrite (wrap64_small (get x 1 + 2 * p1)) by (unfold u32, P32, P64 in *; lia).
+  rewrite (wrap32_small (get w 0 - 1)) by (unfold u32 in *; lia).
+  rewrite (wrap32_small (get w 1 - 1)) by (unfold u32 in *; lia).
+  assert (A0 : (get w 0 - 1) * d0 + 1 < P64) by (apply mul_u32_succ_lt64; unfold u32 in *; lia).
+  assert (A1 : (get w 1 - 1) * d1 + 1 < P64) by (apply mul_u32_succ_lt64; unfold u32 in *; lia).
+  rewrite (wrap64_small ((get w 0 - 1) * d0)) by lia.
+  rewrite (wrap64_small ((get w 1 - 1) * d1)) by lia.
+  rewrite (wrap64_small ((get w 0 - 1) * d0 + 1)) by exact A0.
+  rewrite (wrap64_small ((get w 1 - 1) * d1 + 1)) by exact A1.
+  set (X0 := get x 0 + 2 * p0) in *. set (X1 := get x 1 + 2 * p1) in *.
+  set (W0 := (get w 0 - 1) * d0 + 1) in *. set (W1 := (get w 1 - 1) * d1 + 1) in *.
+  assert (HX0 : X0 < 3 * P32) by (subst X0; unfold u32 in *; lia).
+  assert (HX1 : X1 < 3 * P32) by (subst X1; unfold u32 in *; lia).
+  pose proof (has_compatible_batch_spec x w) as S2. fold (batch_compatible x w) in S2.
+  destruct (N.ltb_spec 3 (depth x)) as [C1|C1]; cbn [orb]; [lia|].
+  destruct (N.ltb_spec 4 (depth w)) as [C2|C2]; cbn [orb]; [lia|].
+  destruct (N.ltb_spec X0 W0) as [C3|C3]; cbn [orb]; [lia|].
+  destruct (N.ltb_spec X1 W1) as [C4|C4]; cbn [orb]; [lia|].
+  destruct (N.eqb_spec (get x 2) (get w 2)) as [C5|C5]; cbn [negb orb]; [|tauto].
+  destruct (has_compatible_batch x w) eqn:C6; cbn [negb orb].
+  2: { intros [_ [_ [_ [_ [_ [A _]]]]]]. apply S2 in A. discriminate. }
+  assert (C6' : batch_compatible x w) by (apply S2; reflexivity).
+  destruct (N.eqb_spec s0 0) as [C7|C7]; cbn [orb]; [lia|].
+  destruct (N.eqb_spec s1 0) as [C8|C8]; cbn [orb]; [lia|].
+  destruct (N.eqb_spec d0 0) as [C9|C9]; cbn [orb]; [lia|].
+  destruct (N.eqb_spec d1 0) as [C10|C10]; cbn [orb]; [lia|].
+  pose proof (div_le_self (X0 - W0) s0 ltac:(lia)) as Q0.
+  pose proof (div_le_self (X1 - W1) s1 ltac:(lia)) as Q1.
+  rewrite (wrap64_small ((X0 - W0) / s0 + 1)) by (unfold P32, P64 in *; lia).
+  rewrite (wrap64_small ((X1 - W1) / s1 + 1)) by (unfold P32, P64 in *; lia).
+  set (y0 := (X0 - W0) / s0 + 1) in *. set (y1 := (X1 - W1) / s1 + 1) in *.
+  assert (Py0 : 1 <= y0) by (subst y0; apply N.le_add_l).
+  assert (Py1 : 1 <= y1) by (subst y1; apply N.le_add_l).
+  set (B := N.max (batch x) (batch w)) in *.
+  assert (PB : 1 <= B) by (subst B; lia).
+  assert (Hge0 : y0 <= y0 * y1 * get w 3 * B).
+  { assert (y0 <= y0 * y1) by nia. assert (y0 * y1 <= y0 * y1 * get w 3) by nia.
+    assert (y0 * y1 * get w 3 <= y0 * y1 * get w 3 * B) by nia. lia. }
+  assert (Hge1 : y1 <= y0 * y1 * get w 3 * B).
+  { assert (y1 <= y0 * y1) by nia. assert (y0 * y1 <= y0 * y1 * get w 3) by nia.
+    assert (y0 * y1 * get w 3 <= y0 * y1 * get w 3 * B) by nia. lia. }
+  destruct (N.ltb_spec U32MAX y0) as [C11|C11]; cbn [orb].
+  { intros [_ [_ [_ [_ [_ [_ [_ [_ [_ [_ A]]]]]]]]]]. unfold U32MAX, P32 in *. lia. }
+  destruct (N.ltb_spec U32MAX y1) as [C12|C12].
+  { intros [_ [_ [_ [_ [_ [_ [_ [_ [_ [_ A]]]]]]]]]]. unfold U32MAX, P32 in *. lia. }
+  assert (Hu : Forall u32 [y0; y1; get w 3])
+    by (repeat constructor; unfold u32, U32MAX, P32 in *; lia).
+  assert (HBu : u32 B) by (subst B; apply max_u32; apply batch_u32; assumption).
+  pose proof (mk_shape_spec [y0; y1; get w 3] B Hu HBu) as M.
+  unfold ctor_admissible in M. rewrite !prodN_cons, prodN_nil in M.
+  replace (y0 * (y1 * (get w 3 * 1)) * B) with (y0 * y1 * get w 3 * B) in M by lia.
+  destruct (mk_shape [y0; y1; get w 3] B) as [r|].
+  - destruct M as [[_ [_ [_ Ms]]] [Mw [Mb [Mg _]]]].
+    split; [repeat (split; [first [assumption|lia]|]); exact Ms|].
+    split; [exact Mw|]. split; [exact Mb|]. intro i. rewrite Mg. apply sget3.
+  - intros [_ [_ [_ [_ [_ [_ [_ [_ [_ [_ A]]]]]]]]]]. apply M. cbn [length]. split; [lia|]. split.
+    + repeat constructor; lia.
+    + split; [lia|exact A].
+Qed.
+
+Definition pool2d_admissible (x : shape) (w0 w1 p0 p1 s0 s1 : N) : Prop :=
+  depth x <= 3 /\ w0 <= get x 0 + 2 * p0 /\ w1 <= get x 1 + 2 * p1 /\
+  0 < w0 /\ 0 < w1 /\ 0 < s0 /\ 0 < s1 /\
+  pool_out (get x 0) p0 w0 s0 * pool_out (get x 1) p1 w1 s1 * get x 2 * batch x < P32.
+
+Theorem pool2d_spec x w0 w1 p0 p1 s0 s1 : wf x ->
+  u32 w0 -> u32 w1 -> u32 p0 -> u32 p1 -> u32 s0 -> u32 s1 ->
+  match pool2d x w0 w1 p0 p1 s0 s1 with
+  | Some r => pool2d_admissible x w0 w1 p0 p1 s0 s1 /\ wf r /\ batch r = batch x /\
+              (forall i, get r i =
+                 if i =? 0 then pool_out (get x 0) p0 w0 s0
+                 else if i =? 1 then pool_out (get x 1) p1 w1 s1
+                 else if i =? 2 then get x 2 else 1)
+  | None => ~ pool2d_admissible x w0 w1 p0 p1 s0 s1
+  end.
+Proof.
+  intros Hx Hw0 Hw1 Hp0 Hp1 Hs0 Hs1. unfold pool2d, pool2d_admissible, pool_out. cbv zeta.
+  pose proof (get_u32 x 0 Hx) as Ux0. pose proof (get_u32 x 1 Hx) as Ux1.
+  pose proof (get_pos x 2 Hx) as Px2. pose proof (get_u32 x 2 Hx) as Ux2.
+  pose proof (wf_batch _ Hx) as Hbx.
+  rewrite (wrap64_small (2 * p0)) by (unfold u32, P32, P64 in *; lia).
+  rewrite (wrap64_small (2 * p1)) by (unfold u32, P32, P64 in *; lia).
+  rewrite (wrap64_small (get x 0 + 2 * p0)) by (unfold u32, P32, P64 in *; lia).
+  rewrite (wrap64_small (get x 1 + 2 * p1)) by (unfold u32, P32, P64 in *; lia).
+  set (X0 := get x 0 + 2 * p0) in *. set (X1 := get x 1 + 2 * p1) in *.
+  assert (HX0 : X0 < 3 * P32) by (subst X0; unfold u32 in *; lia).
+  assert (HX1 : X1 < 3 * P32) by (subst X1; unfold u32 in *; lia).
+  destruct (N.ltb_spec 3 (depth x)) as [C1|C1]; cbn [orb]; [lia|].
+  destruct (N.ltb_spec X0 w0) as [C3|C3]; cbn [orb]; [lia|].
+  destruct (N.ltb_spec X1 w1) as [C4|C4]; cbn [orb]; [lia|].
+  destruct (N.eqb_spec w0 0) as [C5|C5]; cbn [orb]; [lia|].
+  destruct (N.eqb_spec w1 0) as [C6|C6]; cbn [orb]; [lia|].
+  destruct (N.eqb_spec s0 0) as [C7|C7]; cbn [orb]; [lia|].
+  destruct (N.eqb_spec s1 0) as [C8|C8]; cbn [orb]; [lia|].
+  pose proof (div_le_self (X0 - w0) s0 ltac:(lia)) as Q0.
+  pose proof (div_le_self (X1 - w1) s1 ltac:(lia)) as Q1.
+  rewrite (wrap64_small ((X0 - w0) / s0 + 1)) by (unfold P32, P64 in *; lia).
+  rewrite (wrap64_small ((X1 - w1) / s1 + 1)) by (unfold P32, P64 in *; lia).
+  set (y0 := (X0 - w0) / s0 + 1) in *. set (y1 := (X1 - w1) / s1 + 1) in *.
+  assert (Py0 : 1 <= y0) by (subst y0; apply N.le_add_l).
+  assert (Py1 : 1 <= y1) by (subst y1; apply N.le_add_l).
+  assert (Hge0 : y0 <= y0 * y1 * get x 2 * batch x).
+  { assert (y0 <= y0 * y1) by nia. assert (y0 * y1 <= y0 * y1 * get x 2) by nia.
+    assert (y0 * y1 * get x 2 <= y0 * y1 * get x 2 * batch x) by nia. lia. }
+  assert (Hge1 : y1 <= y0 * y1 * get x 2 * batch x).
+  { assert (y1 <= y0 * y1) by nia. assert (y0 * y1 <= y0 * y1 * get x 2) by nia.
+    assert (y0 * y1 * get x 2 <= y0 * y1 * get x 2 * batch x) by nia. lia. }
+  destruct (N.ltb_spec U32MAX y0) as [C11|C11]; cbn [orb].
+  { intros [_ [_ [_ [_ [_ [_ [_ A]]]]]]]. unfold U32MAX, P32 in *. lia. }
+  destruct (N.ltb_spec U32MAX y1) as [C12|C12].
+  { intros [_ [_ [_ [_ [_ [_ [_ A]]]]]]]. unfold U32MAX, P32 in *. lia. }
+  assert (Hu : Forall u32 [y0; y1; get x 2])
+    by (repeat constructor; unfold u32, U32MAX, P32 in *; lia).
+  pose proof (mk_shape_spec [y0; y1; get x 2] (batch x) Hu (batch_u32 _ Hx)) as M.
+  unfold ctor_admissible in M. rewrite !prodN_cons, prodN_nil in M.
+  replace (y0 * (y1 * (get x 2 * 1)) * batch x) with (y0 * y1 * get x 2 * batch x) in M by lia.
+  destruct (mk_shape [y0; y1; get x 2] (batch x)) as [r|].
+  - destruct M as [[_ [_ [_ Ms]]] [Mw [Mb [Mg _]]]].
+    split; [repeat (split; [first [assumption|lia]|]); exact Ms|].
+    split; [exact Mw|]. split; [exact Mb|]. intro i. rewrite Mg. apply sget3.
+  - intros [_ [_ [_ [_ [_ [_ [_ A]]]]]]]. apply M. cbn [length]. split; [lia|]. split.
+    + repeat constructor; lia.
+    + split; [lia|exact A].
+Qed.
